@@ -14,12 +14,16 @@
 EXTENDS Rational, Sequences, FiniteSets, TLC, Json
 
 UnitNames == {"meter", "centimeter", "foot", "inch", "u1", "u2", "u3", "u4", "u5"}
+\* a second tree with a root of its own, declared the documented way (base_unit=None and placeholder callables)
+Tree2 == {"r0", "r1", "r2"}
 Base(u) == CASE u = "meter" -> "none" [] u = "centimeter" -> "meter" [] u = "foot" -> "meter" [] u = "inch" -> "foot"
              [] u = "u1" -> "meter" [] u = "u2" -> "u1" [] u = "u3" -> "u2" [] u = "u4" -> "inch" [] u = "u5" -> "foot"
+             [] u = "r0" -> "none" [] u = "r1" -> "r0" [] u = "r2" -> "r1"
 \* units of u per one base unit
 Factor(u) == CASE u = "centimeter" -> Q(100, 1) [] u = "foot" -> Q(10000, 3048) [] u = "inch" -> Q(12, 1)
                [] u = "u1" -> Q(3, 1) [] u = "u2" -> Q(1, 2) [] u = "u3" -> Q(5, 4) [] u = "u4" -> Q(7, 1)
                [] u = "u5" -> Q(1, 3)        \* a "yard": sibling of inch under foot
+               [] u = "r1" -> Q(4, 1) [] u = "r2" -> Q(1, 5)
                [] OTHER -> Q(1, 1)
 RECURSIVE ToRoot(_, _)
 ToRoot(u, v) == IF Base(u) = "none" THEN v ELSE ToRoot(Base(u), Div(v, Factor(u)))
@@ -39,10 +43,12 @@ Calibrated(vo, p) == Div(RMax(vo, VFloor), Add(Mul(Q(4, 1000), p), Q(1, 10)))   
 VARIABLES case
 Cases ==
     {[k |-> "convert", a |-> a, b |-> b, c |-> c, v |-> v] : a \in UnitNames, b \in UnitNames, c \in UnitNames, v \in Values}
+    \cup {[k |-> "convert", a |-> a, b |-> b, c |-> c, v |-> v] : a \in Tree2, b \in Tree2, c \in Tree2, v \in Values}
     \cup {[k |-> "sonar_pw", us |-> Q(us, 1), b |-> b] : us \in {0, 147, 1470, 5880, 37500}, b \in {"inch", "centimeter", "meter", "foot"}}
     \cup {[k |-> "sonar_an", mv |-> Q(mv, 1), b |-> b] : mv \in {0, 49, 980, 2450, 4999}, b \in {"inch", "centimeter", "meter", "foot"}}
     \cup {[k |-> "pressure", v |-> Q(v, 1000), vcc |-> Q(vcc, 10)] : v \in {-500, 0, 1, 500, 2500, 4500, 5000, 7500}, vcc \in {0, 33, 50}}
-    \cup {[k |-> "calib", vo |-> Q(vo, 1000), p |-> Q(p, 1), vcc |-> Q(vcc, 10)] : vo \in {500, 1300, 2500, 4400}, p \in {0, 60, 120, 200}, vcc \in {33, 50}}
+    \* (a sensor constructed with voltage_in = 0 reads 0 until it is calibrated; calibration replaces the supply voltage)
+    \cup {[k |-> "calib", vo |-> Q(vo, 1000), p |-> Q(p, 1), vcc |-> Q(vcc, 10)] : vo \in {500, 1300, 2500, 4400}, p \in {0, 60, 120, 200}, vcc \in {0, 33, 50}}
     \* calibrated twice: only the last calibration counts
     \cup {[k |-> "recalib", vo1 |-> Q(vo1, 1000), p1 |-> Q(p1, 1), vo |-> Q(vo, 1000), p |-> Q(p, 1), vcc |-> Q(vcc, 10)]
             : vo1 \in {1300, 4400}, p1 \in {0, 120}, vo \in {500, 2500}, p \in {60, 200}, vcc \in {33, 50}}
@@ -71,6 +77,6 @@ C18_CalibrationExact == (case.k \in {"calib", "recalib"}) => Expected(case) = ca
 
 Emit == PrintT("S|" \o ToJson([case |-> case, exp |-> Expected(case)]))
 \* the user-defined part of the unit table, for the driver that builds the same Unit objects
-UserUnits == {"u1", "u2", "u3", "u4", "u5"}
+UserUnits == {"u1", "u2", "u3", "u4", "u5", "r0", "r1", "r2"}
 ASSUME PrintT("U|" \o ToJson([u \in UserUnits |-> [base |-> Base(u), factor |-> Factor(u)]]))
 =============================================================================
